@@ -90,9 +90,10 @@ def stripe_pieces(ctx):
                    ('R7', r'\bs\.retired\.store\(true, std::memory_order_relaxed\);', 'stripes_retired[i] = 1;', 1),
                    ('R7', r'state\.hasWorkMasks\[i >> 6\]\.bits\.fetch_or\([^;]*\);', '/* has-work mask bit set (C12-irrelevant bookkeeping) */', 1),
                    ('R11', r'state\.granularity', 'state_granularity', 1),
+                   ('R1', r'(?<![\w.])alignDownStripe\(', 'alignDownStripe_Wide(', 1),
                    ('LC', r'for\s*\(uint32_t i = 0; i < numWorkers; \+\+i\)\s*\{',
                     'for (uint32_t i = 0; i < numWorkers; ++i) '
-                    '__CPROVER_loop_invariant(i <= numWorkers && start <= cursor && cursor <= end && activeCount <= i && (i == 0 ==> cursor == start) && (i == numWorkers ==> cursor == end)) '
+                    '__CPROVER_loop_invariant(i <= numWorkers && start <= cursor && cursor <= end && activeCount <= i && (i == 0 ==> cursor == start) && (i == numWorkers ==> cursor == end) C13_INV_C) '
                     '__CPROVER_loop_invariant(k < i ==> ((mathint)start <= (mathint)stripes_next[k] && stripes_next[k] <= stripes_end[k] && (mathint)stripes_end[k] <= (mathint)end && '
                     '(k == 0 ==> (mathint)stripes_next[k] == (mathint)start) && (k + 1 == numWorkers ==> (mathint)stripes_end[k] == (mathint)end) && '
                     'stripes_retired[k] == !(stripes_next[k] < stripes_end[k]) C13_INV_K)) '
@@ -107,14 +108,17 @@ def stripe_units(ctx, insts, prop='C12'):
         bits = int(t.replace('uint', '').replace('int', '').replace('_t', ''))
         d = {'IntegerT': t, 'Wide': 'int64_t' if sg else 'uint64_t', 'IS_SIGNED': str(sg), 'NW_MAX': '4096',
              'IT_MAX': str((1 << (bits - (1 if sg else 0))) - 1) + ('' if sg else 'u'), 'IT_MIN': ('(-%d - 1)' % ((1 << (bits - 1)) - 1)) if sg else '0',
-             'WIDE_MAX': '9223372036854775807' if sg else '18446744073709551615u', 'C13_INV_K': ''}
+             'WIDE_MAX': '9223372036854775807' if sg else '18446744073709551615u', 'C13_INV_K': '', 'C13_INV_C': '',
+             'WIDE_MIN': '(-9223372036854775807 - 1)' if sg else '0'}
         if prop == 'C13':
             d['C13_GRANULAR'] = '1'
-            d['C13_INV_K'] = '"&& (k + 1 < numWorkers ==> ((mathint)stripes_end[k] - (mathint)start) % (mathint)state_granularity == 0)"'
+            d['C13_INV_C'] = '&& (((mathint)cursor - (mathint)start) % (mathint)state_granularity == 0)'
+            d['C13_INV_K'] = '&& (k + 1 < numWorkers ==> ((mathint)stripes_end[k] - (mathint)start) % (mathint)state_granularity == 0)'
         common = dict(defines=d, inst=t, timeout=150, signed_wrap=True, nonprop_cls=['overflow', 'conversion'])
         rp = lambda kind: dict(prog='replay/c12_replay.cpp', args=lambda ce, u, kind=kind: [kind, 'T=' + u.inst] + ['%s=%s' % (k, v) for k, v in sorted(ce.items()) if v is not None])
         units += [
             Unit('alignDownStripe', 'intwp', S, 'alignDownStripe', expect=[r'postcondition\.2'], **common),
+            Unit('alignDownStripe<Wide>', 'intwp', S, 'alignDownStripe_Wide', expect=[r'postcondition\.2'], **common),
             Unit('initStripeState.partition', 'intwp', S, 'init_stripes', expect=[r'postcondition\.6', r'loop_invariant_step', r'decreases', r'bounds'],
                  replay=dict(prog='replay/c12_replay.cpp', args=lambda ce, u: ['run', 'T=' + u.inst, 'adaptive=1', 'start=%s' % ce['start'], 'end=%s' % ce['end'], 'pool=%d' % max(1, min(int(ce['numWorkers']) - 1, 48)), 'maxThreads=%s' % ce['numWorkers'], 'granularity=%s' % ce['state_granularity']]), **common),
         ]
@@ -157,7 +161,7 @@ def sizing_units(ctx, insts, prop='C12'):
 
 
 def build(ctx):
-    insts = c17.INSTS if ctx.tier == 'thorough' else [c17.INSTS[0], c17.INSTS[1], c17.INSTS[4], c17.INSTS[6], c17.INSTS[7]]
+    insts = c17.INSTS if ctx.tier == 'thorough' else c17.QUICK_INSTS
     sizing_pieces(ctx)
     units = sizing_units(ctx, insts)
     stripe_pieces(ctx)
